@@ -8,7 +8,7 @@ import scipy.sparse as sp
 ROUTES = ['dense', 'listlist_dense', 'triples', 'dict', 'list_rows',
           'list_dicts', 'list_sparse', 'csr', 'csc', 'coo', 'lil', 'dok',
           'bsr', 'csr_unsorted', 'csc_unsorted', 'csr_zeros', 'csc_zeros',
-          'coo_zeros', 'coo_dups', 'empty_list']
+          'coo_zeros', 'coo_dups', 'empty_list', 'csr_dups', 'csc_dups']
 
 
 def _unsort(mat, salt):
@@ -129,6 +129,26 @@ def matrix_arg(route, m, salt=0):
         cols = np.concatenate([cc, cc[ok]]).astype(np.int32)
         v = np.concatenate([np.where(ok, half, vals), half[ok]])
         return sp.coo_matrix((v, (rows, cols)), shape=m.shape), {}
+    if r in ('csr_dups', 'csc_dups'):
+        # compressed arrays written by hand in which a coordinate is stored
+        # twice (legal: scipy, and every reader of the matrix, take repeated
+        # entries as their sum); values are split only when halving is exact
+        rr, cc = np.nonzero(m)
+        vals = m[rr, cc]
+        half = vals / 2.0
+        ok = (half + half == vals) & np.isfinite(half) & (half != 0)
+        ok &= (np.arange(len(vals)) + salt) % 2 == 0
+        rows = np.concatenate([rr, rr[ok]]).astype(np.int32)
+        cols = np.concatenate([cc, cc[ok]]).astype(np.int32)
+        v = np.concatenate([np.where(ok, half, vals), half[ok]])
+        major, minor, n = (rows, cols, nr) if r == 'csr_dups' else \
+            (cols, rows, nc)
+        order = np.argsort(major, kind='stable')
+        indptr = np.zeros(n + 1, dtype=np.int32)
+        np.add.at(indptr, major + 1, 1)
+        indptr = np.cumsum(indptr).astype(np.int32)
+        cls = sp.csr_matrix if r == 'csr_dups' else sp.csc_matrix
+        return cls((v[order], minor[order], indptr), shape=m.shape), {}
     raise ValueError(r)
 
 
